@@ -7,6 +7,7 @@ follows from the order of the calls alone.
 """
 from __future__ import annotations
 
+import errno
 import hashlib
 import json
 import os
@@ -123,8 +124,28 @@ class Recorder(shim.Handler):
             self.busy = False
 
 
+class FaultRecorder(Recorder):
+    """The recorder, with the k-th fsync of a regular file failing with EIO (the failed call is not an fsync event: it made
+    nothing durable).  Whatever the operation goes on to do is replayed through L0 like any other trace."""
+
+    def __init__(self, folder, contents, target):
+        super().__init__(folder, contents)
+        self.target = target
+        self.count = 0
+        self.fired = False
+
+    def pre(self, ev):
+        super().pre(ev)
+        if self.busy or ev.get('quiet') or ev['op'] != 'fsync' or ev['obj'].startswith('dir:'):
+            return
+        self.count += 1
+        if self.count == self.target:
+            self.fired = True
+            raise OSError(errno.EIO, f"injected I/O error at fsync {ev['obj']}")
+
+
 def run_scenario(job):
-    index, thorough = job
+    index, thorough, fault_k = (tuple(job) + (0,))[:3]
     common.import_lib()
     from disk_objectstore import Container  # pylint: disable=import-outside-toplevel
 
@@ -136,7 +157,7 @@ def run_scenario(job):
         scenario.build(folder, contents)
         sh.clear()
         sh.add_root(folder, 'c', 2, contents)
-        recorder = Recorder(folder, contents)
+        recorder = FaultRecorder(folder, contents, fault_k) if fault_k else Recorder(folder, contents)
         files, names = recorder.scan_initial()
         rows0 = recorder.rows_now()
         recorder.last_rows = rows0
@@ -157,7 +178,9 @@ def run_scenario(job):
     for line in recorder.lines:
         for field, default in (('f', 0), ('end', 0), ('to', 0), ('name', ''), ('rows', [])):
             line.setdefault(field, default)
-    return {'scenario': scenario.name, 'files': files, 'names': names, 'rows': rows0, 'lines': recorder.lines,
+    n_fsync = sum(1 for line in recorder.lines if line['e'] == 'fsync')
+    name = scenario.name + (f'#fsync{fault_k}-fails' if fault_k else '')
+    return {'scenario': name, 'index': index, 'n_fsync': n_fsync, 'fired': bool(getattr(recorder, 'fired', False)), 'files': files, 'names': names, 'rows': rows0, 'lines': recorder.lines,
             'must': [{'k': k, 'loosename': f'loose:{k}'} for k in must], 'loosenames': loosenames}
 
 
@@ -167,7 +190,12 @@ INVARIANTS = ['C06_LoosePublishedDurable', 'C06_RowsOverDurableBytes', 'C06_Acke
 def check(report: common.Report):
     thorough = report.tier == 'thorough'
     all_sc = scenarios.all_scenarios(thorough)
-    traces = common.pmap(run_scenario, [(i, thorough) for i in range(len(all_sc)) if all_sc[i].default_sync])
+    traces = common.pmap(run_scenario, [(i, thorough, 0) for i in range(len(all_sc)) if all_sc[i].default_sync])
+    # the same operations with one fsync of a data file failing: a failed fsync makes nothing durable, so nothing that relies on
+    # it may be published afterwards (fault + power loss, the combination neither C06's images nor C17's faults reach alone)
+    faulted = common.pmap(run_scenario, [(t['index'], thorough, k) for t in traces for k in range(1, t['n_fsync'] + 1)])
+    faulted = [t for t in faulted if t['fired']]
+    traces = traces + faulted
     with common.scratch('dum') as work:
         trace_file = os.path.join(work, 'dur.ndjson')
         with open(trace_file, 'w', encoding='utf8') as handle:
@@ -203,6 +231,7 @@ def check(report: common.Report):
     report.add('states', res.distinct)
     report.add('transitions', res.generated)
     report.set('event_traces', len(traces))
+    report.set('event_traces_with_a_failing_fsync', len(faulted))
     report.set('events_replayed_through_L0', expected - len(traces))
     report.set('event_monitor', res.summary())
     return traces
